@@ -22,12 +22,13 @@ def main():
     ap.add_argument('--nshards', type=int, default=1)
     ap.add_argument('--out', required=True)
     ap.add_argument('--only', type=int, default=None, help='record only behaviour number B (replay)')
+    ap.add_argument('--tables', default=None, help='exhaustive tables enumerated by TLC (TableGen.tla)')
     a = ap.parse_args()
     import concepts
     if not os.path.realpath(concepts.__file__).startswith(os.path.realpath(os.environ.get('VERIF_REPO', '/repo'))):
         raise SystemExit('wrong copy of concepts imported: ' + concepts.__file__)
     fams = ctxplan.FAMILIES[a.prop]
-    items = ctxplan.plan(a.prop, a.tier, a.seed)
+    items = ctxplan.plan(a.prop, a.tier, a.seed, ctxplan.load_tables(a.tables) if a.tables else None)
     stats = {'behaviours': 0, 'events': 0, 'nontrivial': 0, 'samples': [], 'exhaustive_tables': 0,
              'max_concepts': 0, 'max_width': 0}
     seen = set()
